@@ -1418,6 +1418,12 @@ class Printer:
                 return f"{e.func.id}({body})"
             sig = self._sig(e)
             args = [sh(a) for a in e.args]
+            # a comprehension that is consumed at once (join / sum / sorted / list / tuple / set / min / max / dict / next / enumerate):
+            # list or generator makes no difference
+            consumer = (isinstance(e.func, ast.Attribute) and e.func.attr == "join") or \
+                (isinstance(e.func, ast.Name) and e.func.id in ("sum", "sorted", "list", "tuple", "set", "frozenset", "min", "max", "dict", "enumerate", "reversed"))
+            if consumer and len(e.args) >= 1 and isinstance(e.args[0], ast.ListComp) and args[0].startswith("ListComp("):
+                args[0] = "GeneratorExp(" + args[0][len("ListComp("):]
             kws = [(k.arg, sh(k.value)) for k in e.keywords]
             if sig is not None and len(e.args) <= len(sig) and not any(isinstance(a, ast.Starred) for a in e.args) \
                     and all(k.arg is not None for k in e.keywords):
@@ -1428,7 +1434,8 @@ class Printer:
             return f"{sh(e.func)}({inner})"
         if isinstance(e, ast.Starred):
             return f"*{sh(e.value)}"
-        if isinstance(e, ast.BinOp) and isinstance(e.op, (ast.Add, ast.Sub)) and not getattr(e, "_lin_done", False):
+        if isinstance(e, ast.BinOp) and not getattr(e, "_lin_done", False) and (isinstance(e.op, (ast.Add, ast.Sub)) or (
+                isinstance(e.op, ast.Mult) and any(isinstance(o, ast.BinOp) and isinstance(o.op, (ast.Add, ast.Sub)) for o in (e.left, e.right)))):
             simp = self._linear_simplify(e)
             if simp is not None:
                 return sh(simp)
@@ -1556,6 +1563,7 @@ class Printer:
         const = [0]
         n_const = [0]
         n_terms = [0]
+        distributed = [False]
 
         def rec(x: ast.AST, sign: int) -> bool:
             if isinstance(x, ast.BinOp) and isinstance(x.op, ast.Add):
@@ -1564,6 +1572,19 @@ class Printer:
                 return rec(x.left, sign) and rec(x.right, -sign)
             if isinstance(x, ast.UnaryOp) and isinstance(x.op, ast.USub):
                 return rec(x.operand, -sign)
+            if isinstance(x, ast.BinOp) and isinstance(x.op, ast.Mult):
+                # (a + b) * c  ->  a*c + b*c      (one level: index arithmetic such as (i + 1) * size)
+                for a_, b_ in ((x.left, x.right), (x.right, x.left)):
+                    if isinstance(a_, ast.BinOp) and isinstance(a_.op, (ast.Add, ast.Sub)) and not _seqlike(a_) and not _seqlike(b_) \
+                            and not isinstance(b_, ast.BinOp):
+                        distributed[0] = True
+                        l_ = ast.BinOp(left=a_.left, op=ast.Mult(), right=b_)
+                        r_ = ast.BinOp(left=a_.right, op=ast.Mult(), right=b_)
+                        return rec(l_, sign) and rec(r_, sign if isinstance(a_.op, ast.Add) else -sign)
+                if isinstance(x.left, ast.Constant) and x.left.value == 1 and isinstance(x.left.value, int):
+                    return rec(x.right, sign)
+                if isinstance(x.right, ast.Constant) and x.right.value == 1 and isinstance(x.right.value, int):
+                    return rec(x.left, sign)
             if isinstance(x, ast.Constant):
                 if isinstance(x.value, int) and not isinstance(x.value, bool):
                     const[0] += sign * x.value
@@ -1572,6 +1593,11 @@ class Printer:
                 return False  # strings etc.: `+` is not arithmetic
             if _seqlike(x):
                 return False  # concatenation
+            if isinstance(x, ast.BinOp) and isinstance(x.op, ast.Mult):
+                try:
+                    x._lin_done = True  # type: ignore[attr-defined]  # a product that is not distributed is a term as it stands
+                except Exception:
+                    pass
             k = self._show(x)
             n_terms[0] += 1
             if k not in terms:
@@ -1585,7 +1611,7 @@ class Printer:
         live = [(k, c, x) for k, (c, x) in terms.items() if c != 0]
         cancelled = len(live) < n_terms[0] and any(c == 0 for c, _ in terms.values())
         folded = n_const[0] > 1 or (n_const[0] == 1 and const[0] == 0)
-        if not cancelled and not folded:
+        if not cancelled and not folded and not distributed[0]:
             return None
         pos = []
         neg = []
